@@ -196,6 +196,10 @@ def handle : List Sexp → Option String
       some (match GenK.anyCapture m a st (unt == "1") l with
         | .ok (c, p) => s!"ok{ints c} | {p}"
         | .error e => "err " ++ errName e)
+  | [.atom "KEXPLGUESS", .atom es, .atom cls, .atom fmt] => do
+      some (match GenK.explicitGuess (← es.toInt?) (← cls.toInt?) (← fmt.toInt?) [0] with
+        | .ok v => s!"ok {v}"
+        | .error e => "err " ++ errName e)
   | .atom "KBERBOOLDEC" :: args => do
       let a ← intArgs args
       some (match GenK.intDecode a >>= GenK.berBoolDec with
